@@ -24,6 +24,13 @@ class InvalidNameError(ValueError):
     def __init__(self, name: str, reason: str):
         message: str = f"Cannot split the following name `{name}` into parts: {reason}"
         super().__init__(message)
+        self.name = name
+        self.reason = reason
+
+    def __reduce__(self):
+        # Needed for copy / deepcopy / pickle, which would otherwise call
+        #   `InvalidNameError(message)` and fail on the missing `reason`.
+        return self.__class__, (self.name, self.reason)
 
 
 class _NameTransformerMiddleware(BlockMiddleware, abc.ABC):
